@@ -856,4 +856,543 @@ theorem invoke_grown (s : St) (k : Nat) (inv : Inv) (g : Good s k) :
         · rw [(cancel_code _ _).1, (cancelAll_code _ _).1]; exact hb
         · rw [(cancelAll_code _ _).1]; exact hb
 
+/-! ### Look-ups by name: slots -/
+
+/-- the symbol table of a wrapper, in slot order -/
+def names (sl : Slots) : List GName := sl.map (·.1)
+
+@[simp] theorem names_nil : names [] = [] := rfl
+@[simp] theorem names_cons (m : GName) (v : GVal) (rest : Slots) :
+    names ((m, v) :: rest) = m :: names rest := rfl
+@[simp] theorem scan_nil (n : GName) : scan [] n = .notFound := rfl
+theorem scan_cons (m : GName) (v : GVal) (rest : Slots) (n : GName) :
+    scan ((m, v) :: rest) n = if m = n then .val v else scan rest n := rfl
+@[simp] theorem store_nil (n : GName) (x : GVal) : store [] n x = [] := rfl
+theorem store_cons (m : GName) (v : GVal) (rest : Slots) (n : GName) (x : GVal) :
+    store ((m, v) :: rest) n x = if m = n then (m, x) :: rest else (m, v) :: store rest n x := rfl
+
+theorem scan_notFound_of_not_mem (sl : Slots) (n : GName) (h : n ∉ names sl) : scan sl n = .notFound := by
+  induction sl with
+  | nil => rfl
+  | cons a rest ih =>
+    obtain ⟨m, v⟩ := a
+    simp only [names_cons, List.mem_cons, not_or] at h
+    rw [scan_cons, if_neg (fun e => h.1 e.symm)]
+    exact ih h.2
+
+/-- `StoreGlobal` then `Get`: the slot the compiler resolved the name to is the slot `Get` finds -/
+theorem scan_store (sl : Slots) (m n : GName) (x : GVal) :
+    scan (store sl m x) n = if m = n ∧ n ∈ names sl then .val x else scan sl n := by
+  induction sl with
+  | nil => simp
+  | cons a rest ih =>
+    obtain ⟨a, v⟩ := a
+    rw [store_cons]
+    by_cases ham : a = m
+    · subst ham
+      simp only [↓reduceIte, scan_cons, names_cons, List.mem_cons]
+      by_cases han : a = n
+      · subst han; simp
+      · simp [han]
+    · simp only [ham, ↓reduceIte, scan_cons, names_cons, List.mem_cons, ih]
+      by_cases han : a = n
+      · subst han
+        have : ¬ (m = a) := fun e => ham e.symm
+        simp [this]
+      · have : ¬ (n = a) := fun e => han e.symm
+        simp [han, this]
+
+theorem names_store (sl : Slots) (m : GName) (x : GVal) : names (store sl m x) = names sl := by
+  induction sl with
+  | nil => rfl
+  | cons a rest ih =>
+    obtain ⟨a, v⟩ := a
+    rw [store_cons]
+    split
+    · rfl
+    · simp only [names_cons, ih]
+
+theorem names_defs (f : GName → GVal) (ns : List GName) (sl : Slots) :
+    names (ns.foldl (fun sl m => store sl m (f m)) sl) = names sl := by
+  induction ns generalizing sl with
+  | nil => rfl
+  | cons m t ih => simp only [List.foldl_cons]; rw [ih, names_store]
+
+/-- executing the definitions `ns`: every defined name that has a slot holds its value, every
+    other slot is untouched -/
+theorem scan_defs (f : GName → GVal) (ns : List GName) (sl : Slots) (n : GName) :
+    scan (ns.foldl (fun sl m => store sl m (f m)) sl) n =
+      if n ∈ ns ∧ n ∈ names sl then .val (f n) else scan sl n := by
+  induction ns generalizing sl with
+  | nil => simp
+  | cons m t ih =>
+    simp only [List.foldl_cons]
+    rw [ih, names_store, scan_store]
+    by_cases hm : m = n
+    · subst hm
+      by_cases hin : m ∈ names sl
+      · simp [hin]
+      · simp [hin]
+    · have : ¬ (n = m) := fun e => hm e.symm
+      simp [hm, this]
+
+theorem scan_init (tbl : List GName) (n : GName) :
+    scan (tbl.map (fun m => (m, initVal m))) n = if n ∈ tbl then .val (initVal n) else .notFound := by
+  induction tbl with
+  | nil => simp
+  | cons a t ih =>
+    simp only [List.map_cons, List.mem_cons, scan_cons, ih]
+    by_cases han : a = n
+    · subst han; simp
+    · have : ¬ (n = a) := fun e => han e.symm
+      simp [han, this]
+
+theorem names_init (tbl : List GName) : names (tbl.map (fun m => (m, initVal m))) = tbl := by
+  induction tbl with
+  | nil => rfl
+  | cons a t ih => simp only [List.map_cons, names_cons, ih]
+
+theorem names_append (a b : Slots) : names (a ++ b) = names a ++ names b := by
+  simp [names]
+
+theorem scan_append (a b : Slots) (n : GName) :
+    scan (a ++ b) n = if n ∈ names a then scan a n else scan b n := by
+  induction a with
+  | nil => simp
+  | cons x t ih =>
+    obtain ⟨m, v⟩ := x
+    simp only [List.cons_append, names_cons, List.mem_cons, scan_cons, ih]
+    by_cases hm : m = n
+    · subst hm; simp
+    · have : ¬ (n = m) := fun e => hm e.symm
+      simp [hm, this]
+
+/-! ### Look-ups by name: the wrappers of a reused VM -/
+
+/-- `Get` on a freshly wrapped code object: the closed form -/
+theorem scan_fresh_code (o : Owner) (lay : Lay) (bound : Bool) (n : GName) :
+    scan (if bound then execDefs (loadRoot o (codeTbl lay)) (defNames lay)
+          else loadRoot o (codeTbl lay)).slots n = codeGet lay o bound n := by
+  have hsub : n ∈ defNames lay → n ∈ codeTbl lay := fun h => by
+    unfold codeTbl; exact List.mem_append_right _ h
+  cases bound with
+  | false =>
+    simp only [Bool.false_eq_true, ↓reduceIte, loadRoot, scan_init, codeGet, Bool.false_and]
+  | true =>
+    simp only [↓reduceIte, execDefs, loadRoot, scan_defs, names_init, scan_init, codeGet,
+      Bool.true_and, decide_eq_true_eq]
+    by_cases h1 : n ∈ defNames lay
+    · simp [h1, hsub h1]
+    · simp [h1]
+
+theorem names_fresh_code (o : Owner) (lay : Lay) (bound : Bool) :
+    names (if bound then execDefs (loadRoot o (codeTbl lay)) (defNames lay)
+           else loadRoot o (codeTbl lay)).slots = codeTbl lay := by
+  cases bound <;> simp [execDefs, loadRoot, names_defs, names_init]
+
+theorem ginvoke_runCode (g : GSt) (s : St) (k : Nat) (inv : Inv) (lay : Lay)
+    (hk : inv.kind = .runCode) (hq : (prep s k inv).running = false) :
+    ginvoke g s k inv lay =
+      { (if 0 < (prep s k inv).startCount then greset g else g) with
+        codeW := some (if cut s k inv then
+            loadCode (if 0 < (prep s k inv).startCount then greset g else g) (.code (codeOf k inv)) lay
+          else execDefs (loadCode (if 0 < (prep s k inv).startCount then greset g else g)
+            (.code (codeOf k inv)) lay) (defNames lay)),
+        active := some false, cur := 0 } := by
+  unfold ginvoke
+  simp [hk, hq]
+
+theorem ginvoke_call (g : GSt) (s : St) (k : Nat) (inv : Inv) (lay : Lay)
+    (hk : inv.kind = .call) (hq : (prep s k inv).running = false) :
+    ginvoke g s k inv lay =
+      if (preState s k inv).hasCode = false then gsetup g (preState s k inv) lay else g := by
+  unfold ginvoke
+  simp only [hk, hq]
+  split <;> simp_all
+
+theorem ginvoke_run (g : GSt) (s : St) (k : Nat) (inv : Inv) (lay : Lay)
+    (hk : inv.kind = .run) (hq : (prep s k inv).running = false) :
+    ginvoke g s k inv lay =
+      { g with
+        mainTbl := g.mainTbl ++ snippetNames k,
+        mainW := some (if cut s k inv then
+            (match g.mainW with
+              | some old => reload old (g.mainTbl ++ snippetNames k)
+              | none => loadRoot .main (g.mainTbl ++ snippetNames k))
+          else execDefs (match g.mainW with
+              | some old => reload old (g.mainTbl ++ snippetNames k)
+              | none => loadRoot .main (g.mainTbl ++ snippetNames k)) (snippetNames k)),
+        active := some true, cur := k + 1 } := by
+  obtain ⟨mt, mw, cw, ac, cu⟩ := g
+  cases mw <;> simp [ginvoke, hk, hq]
+
+/-- the invariant of the name storage between invocations (`k` = index of the next invocation):
+    a VM that has never been started has wrapped nothing; the REPL compiler's table is the host's
+    names followed by names of snippets of EARLIER invocations; the wrapper of the main code, when
+    there is one, belongs to main, its table is a prefix of the compiler's and its host slots hold
+    the host's objects -/
+structure GGood (g : GSt) (s : St) (k : Nat) : Prop where
+  cold : s.startCount = 0 → g.codeW = none ∧ g.mainW = none
+  tbl : ∃ t, g.mainTbl = hostTbl 0 ++ t ∧ ∀ n ∈ t, ∃ j, j < k ∧ n ∈ snippetNames j
+  wrap : ∀ w, g.mainW = some w → w.owner = .main ∧ (∃ t, g.mainTbl = names w.slots ++ t) ∧
+          ∀ n ∈ hostTbl 0, scan w.slots n = .val (initVal n)
+
+theorem ggood_fresh (acc k : Nat) : GGood {} (fresh acc) k :=
+  ⟨fun _ => ⟨rfl, rfl⟩, ⟨[], by simp, by simp⟩, fun w h => by simp at h⟩
+
+theorem prep_cold (s : St) (k : Nat) (inv : Inv) (g : Good s k)
+    (h : ¬ 0 < (prep s k inv).startCount) : s.startCount = 0 := by
+  have := (prep_facts s k inv g).2.2.2.2.2.2
+  omega
+
+/-- **after `RunCode` every name resolves in the code object it was handed, freshly wrapped**:
+    nothing an earlier invocation loaded, defined or looked up is left -/
+theorem get_after_runCode (g : GSt) (s : St) (k : Nat) (inv : Inv) (lay : Lay) (n : GName)
+    (hg : Good s k) (gg : GGood g s k) (hk : inv.kind = .runCode) :
+    get (ginvoke g s k inv lay) n = codeGet lay (.code (codeOf k inv)) (!cut s k inv) n ∧
+    globalNames (ginvoke g s k inv lay) = codeTbl lay := by
+  have hq := (prep_facts s k inv hg).1
+  rw [ginvoke_runCode g s k inv lay hk hq]
+  have hload : loadCode (if 0 < (prep s k inv).startCount then greset g else g)
+      (.code (codeOf k inv)) lay = loadRoot (.code (codeOf k inv)) (codeTbl lay) := by
+    by_cases h0 : 0 < (prep s k inv).startCount
+    · simp [h0, greset, loadCode]
+    · have := (gg.cold (prep_cold s k inv hg h0)).1
+      simp [h0, loadCode, this]
+  rw [hload]
+  have e := scan_fresh_code (.code (codeOf k inv)) lay (!cut s k inv) n
+  have e2 := names_fresh_code (.code (codeOf k inv)) lay (!cut s k inv)
+  cases hc : cut s k inv <;> simp only [hc, Bool.not_true, Bool.not_false, Bool.false_eq_true,
+    ↓reduceIte] at e e2 ⊢
+  · exact ⟨e, e2⟩
+  · exact ⟨e, e2⟩
+
+
+/-- a `Call` on a VM without code: the names resolve in the definitions it loads, freshly wrapped -/
+theorem get_after_setup (g : GSt) (s : St) (k : Nat) (inv : Inv) (lay : Lay) (n : GName)
+    (hg : Good s k) (hk : inv.kind = .call) (hc : (preState s k inv).hasCode = false) :
+    get (ginvoke g s k inv lay) n = codeGet lay .setup true n ∧
+    globalNames (ginvoke g s k inv lay) = codeTbl lay := by
+  have hq := (prep_facts s k inv hg).1
+  rw [ginvoke_call g s k inv lay hk hq, if_pos hc]
+  have e := scan_fresh_code .setup lay true n
+  have e2 := names_fresh_code .setup lay true
+  simp only [↓reduceIte] at e e2
+  exact ⟨e, e2⟩
+
+/-- **a `Call` of a function of the code an earlier invocation loaded leaves the name storage
+    as it is**: every name resolves after the Call as it did before -/
+theorem call_keeps_globals (g : GSt) (s : St) (k : Nat) (inv : Inv) (lay : Lay)
+    (hg : Good s k) (hk : inv.kind = .call) (hc : (preState s k inv).hasCode = true) :
+    ginvoke g s k inv lay = g := by
+  have hq := (prep_facts s k inv hg).1
+  rw [ginvoke_call g s k inv lay hk hq, if_neg (by simp [hc])]
+
+theorem mem_snippetNames (k : Nat) (n : GName) :
+    n ∈ snippetNames k ↔ n = .over (k + 1) ∨ n = .act (k + 1) := by
+  simp [snippetNames]
+
+theorem snippet_not_host (j : Nat) (n : GName) (h : n ∈ snippetNames j) : n ∉ hostTbl 0 := by
+  rw [mem_snippetNames] at h
+  rcases h with h | h <;> subst h <;> simp [hostTbl]
+
+theorem ownName_snippet (k j : Nat) (n : GName) (h : n ∈ snippetNames j) (ho : ownName k n = true) :
+    j = k := by
+  rw [mem_snippetNames] at h
+  rcases h with h | h <;> subst h <;> simpa [ownName] using ho
+
+/-- the wrapper `Run` executes: main re-based on its old wrapper, or wrapped afresh -/
+def runWrap (g : GSt) (k : Nat) : Wrap :=
+  match g.mainW with
+  | some old => reload old (g.mainTbl ++ snippetNames k)
+  | none => loadRoot .main (g.mainTbl ++ snippetNames k)
+
+theorem runWrap_facts (g : GSt) (s : St) (k : Nat) (gg : GGood g s k) :
+    (runWrap g k).owner = .main ∧ names (runWrap g k).slots = g.mainTbl ++ snippetNames k ∧
+    (∀ n ∈ hostTbl 0, scan (runWrap g k).slots n = .val (initVal n)) ∧
+    (∀ n ∈ snippetNames k, scan (runWrap g k).slots n = .val .unbound) := by
+  obtain ⟨t, ht, hts⟩ := gg.tbl
+  have hfreshk : ∀ n ∈ snippetNames k, n ∉ g.mainTbl := by
+    intro n hn hm
+    rw [ht, List.mem_append] at hm
+    rcases hm with hm | hm
+    · exact snippet_not_host k n hn hm
+    · obtain ⟨j, hj, hnj⟩ := hts n hm
+      rw [mem_snippetNames] at hn hnj
+      rcases hn with hn | hn <;> subst hn <;> simp at hnj <;> omega
+  have hinit : ∀ n ∈ snippetNames k, initVal n = .unbound := by
+    intro n hn; rw [mem_snippetNames] at hn; rcases hn with hn | hn <;> subst hn <;> rfl
+  unfold runWrap
+  cases hm : g.mainW with
+  | none =>
+    refine ⟨rfl, names_init _, ?_, ?_⟩
+    · intro n hn
+      have : n ∈ g.mainTbl ++ snippetNames k := by rw [ht]; simp [hn]
+      simp only [loadRoot, scan_init, this, ↓reduceIte]
+    · intro n hn
+      have : n ∈ g.mainTbl ++ snippetNames k := by simp [hn]
+      simp only [loadRoot, scan_init, this, ↓reduceIte, hinit n hn]
+  | some old =>
+    obtain ⟨ho, ⟨t', ht'⟩, hh⟩ := gg.wrap old hm
+    have hlen : old.slots.length = (names old.slots).length := by simp [names]
+    have hdrop : List.drop old.slots.length (g.mainTbl ++ snippetNames k) = t' ++ snippetNames k := by
+      rw [ht', hlen, List.append_assoc, List.drop_left]
+    refine ⟨ho, ?_, ?_, ?_⟩
+    · simp only [reload, hdrop, names_append, names_init]
+      rw [ht', List.append_assoc]
+    · intro n hn
+      have hin : n ∈ names old.slots := by
+        by_cases hin : n ∈ names old.slots
+        · exact hin
+        · have := hh n hn
+          rw [scan_notFound_of_not_mem _ _ hin] at this
+          cases this
+      simp only [reload, scan_append, hin, ↓reduceIte, hh n hn]
+    · intro n hn
+      have hnot : n ∉ names old.slots := fun hin => hfreshk n hn (by rw [ht']; simp [hin])
+      have hmem : n ∈ t' ++ snippetNames k := by simp [hn]
+      simp only [reload, hdrop, scan_append, hnot, ↓reduceIte, scan_init, hmem, hinit n hn]
+
+/-- **after `Run` the names of its own snippet, the host's names and every name that is not a
+    REPL snippet's resolve as on a fresh VM that ran the snippet alone** (the names of EARLIER
+    snippets are the REPL's memory, by design) -/
+theorem get_after_run (g : GSt) (s : St) (k : Nat) (inv : Inv) (lay : Lay) (n : GName)
+    (hg : Good s k) (gg : GGood g s k) (hk : inv.kind = .run) (ho : ownName k n = true) :
+    get (ginvoke g s k inv lay) n = snippetGet k (!cut s k inv) n := by
+  have hq := (prep_facts s k inv hg).1
+  rw [ginvoke_run g s k inv lay hk hq]
+  obtain ⟨w1, w2, w3, w4⟩ := runWrap_facts g s k gg
+  obtain ⟨t, ht, hts⟩ := gg.tbl
+  show scan (if cut s k inv then runWrap g k else execDefs (runWrap g k) (snippetNames k)).slots n = _
+  unfold snippetGet
+  by_cases hh : n ∈ hostTbl 0
+  · have hns : n ∉ snippetNames k := fun h => snippet_not_host k n h hh
+    cases cut s k inv <;> simp [hh, execDefs, scan_defs, hns, w3 n hh]
+  · by_cases hs : n ∈ snippetNames k
+    · have hin : n ∈ names (runWrap g k).slots := by rw [w2]; simp [hs]
+      cases cut s k inv <;> simp [hh, hs, execDefs, scan_defs, hin, w4 n hs, w1]
+    · have hnot : n ∉ names (runWrap g k).slots := by
+        rw [w2, ht]
+        intro hm
+        simp only [List.mem_append] at hm
+        rcases hm with (hm | hm) | hm
+        · exact hh hm
+        · obtain ⟨j, hj, hnj⟩ := hts n hm
+          have := ownName_snippet k j n hnj ho
+          omega
+        · exact hs hm
+      cases cut s k inv <;>
+        simp [hh, hs, execDefs, scan_defs, scan_notFound_of_not_mem _ _ hnot]
+
+
+/-- an invocation on a quiet VM always starts it -/
+theorem invoke_started (s : St) (k : Nat) (inv : Inv) (g : Good s k) :
+    0 < (invoke s k inv).1.startCount := by
+  obtain ⟨b1, _, b3, b4, b5, _, _⟩ := bodyState_facts s k inv g
+  have hsc := bodyState_started s k inv
+  cases hc : cut s k inv with
+  | true =>
+    rw [invoke_eq s k inv g, hc]
+    show 0 < (bodyState s k inv).startCount
+    omega
+  | false =>
+    rw [invoke_body s k inv g hc]
+    by_cases himp : (eff s k inv).imp = true ∧ (bodyState s k inv).mods = false
+    · unfold core
+      simp only [himp, and_self, ↓reduceIte]
+      show 0 < (bodyState s k inv).startCount
+      omega
+    · by_cases gi : (bodyState s k inv).gone = true ∧
+          modRuns (bodyState s k inv) (eff s k inv) = true ∧ (bodyState s k inv).icache = false
+      · unfold core
+        simp only [himp, gi, and_self, ↓reduceIte]
+        show 0 < (bodyState s k inv).startCount
+        omega
+      cases hme : modEnds (bodyState s k inv) (eff s k inv) with
+      | true =>
+        obtain ⟨m1, m2⟩ := modEnd_facts (bodyState s k inv) (ctxOf k inv) (eff s k inv)
+        have hcore : core (bodyState s k inv) (ctxOf k inv) (eff s k inv)
+            = modEnd (bodyState s k inv) (ctxOf k inv) (eff s k inv) := by
+          unfold core; simp only [himp, gi, hme, ↓reduceIte]
+        rw [hcore]
+        show 0 < (modEnd (bodyState s k inv) (ctxOf k inv) (eff s k inv)).1.startCount
+        omega
+      | false =>
+        have hn : (eff s k inv).bg = false → ctxOf k inv ∉ (bodyState s k inv).cancelled :=
+          fun h => (b5 h).2
+        have ha : (eff s k inv).bg = false → ctxOf k inv ∈ (bodyState s k inv).armed :=
+          fun h => (b5 h).1
+        obtain ⟨_, l2, _, _, _, _, _, l8, _⟩ :=
+          leaf_facts (bodyState s k inv) (ctxOf k inv) (eff s k inv) b1 hn ha
+        unfold core
+        simp only [himp, gi, hme, Bool.false_eq_true, ↓reduceIte]
+        show 0 < (leaf (bodyState s k inv) (ctxOf k inv) (eff s k inv)).startCount
+        omega
+
+
+theorem ggood_of (g g' : GSt) (s s' : St) (k : Nat) (gg : GGood g s k) (hs : 0 < s'.startCount)
+    (ht : g'.mainTbl = g.mainTbl) (hw : g'.mainW = g.mainW ∨ g'.mainW = none) :
+    GGood g' s' (k + 1) := by
+  obtain ⟨t, h1, h2⟩ := gg.tbl
+  refine ⟨fun h => by omega, ⟨t, by rw [ht, h1], fun n hn => ?_⟩, fun w hw' => ?_⟩
+  · obtain ⟨j, hj, hnj⟩ := h2 n hn
+    exact ⟨j, by omega, hnj⟩
+  · rcases hw with hw | hw
+    · rw [hw] at hw'
+      rw [ht]
+      exact gg.wrap w hw'
+    · rw [hw] at hw'; cases hw'
+
+/-- the invariant of the name storage is re-established by every invocation -/
+theorem ggood_step (g : GSt) (s : St) (k : Nat) (inv : Inv) (lay : Lay)
+    (hg : Good s k) (gg : GGood g s k) :
+    GGood (ginvoke g s k inv lay) (invoke s k inv).1 (k + 1) := by
+  have hq := (prep_facts s k inv hg).1
+  have hs := invoke_started s k inv hg
+  cases hk : inv.kind with
+  | runCode =>
+    rw [ginvoke_runCode g s k inv lay hk hq]
+    apply ggood_of g _ s _ k gg hs
+    · split <;> rfl
+    · split
+      · exact Or.inr rfl
+      · exact Or.inl rfl
+  | call =>
+    rw [ginvoke_call g s k inv lay hk hq]
+    split
+    · apply ggood_of g _ s _ k gg hs
+      · unfold gsetup; dsimp only; split <;> rfl
+      · unfold gsetup; dsimp only
+        split
+        · exact Or.inr rfl
+        · exact Or.inl rfl
+    · exact ggood_of g g s _ k gg hs rfl (Or.inl rfl)
+  | run =>
+    rw [ginvoke_run g s k inv lay hk hq]
+    obtain ⟨w1, w2, w3, w4⟩ := runWrap_facts g s k gg
+    obtain ⟨t, h1, h2⟩ := gg.tbl
+    refine ⟨fun h => by omega, ⟨t ++ snippetNames k, by simp [h1], fun n hn => ?_⟩, fun w hw => ?_⟩
+    · rw [List.mem_append] at hn
+      rcases hn with hn | hn
+      · obtain ⟨j, hj, hnj⟩ := h2 n hn
+        exact ⟨j, by omega, hnj⟩
+      · exact ⟨k, by omega, hn⟩
+    · have hw' : w = (if cut s k inv then runWrap g k else execDefs (runWrap g k) (snippetNames k)) := by
+        have : some (if cut s k inv then runWrap g k else execDefs (runWrap g k) (snippetNames k)) = some w := hw
+        exact (Option.some.inj this).symm
+      show w.owner = .main ∧ (∃ t, g.mainTbl ++ snippetNames k = names w.slots ++ t) ∧ _
+      subst hw'
+      cases cut s k inv
+      · simp only [Bool.false_eq_true, ↓reduceIte, execDefs, names_defs, scan_defs]
+        refine ⟨w1, ⟨[], by rw [w2]; simp⟩, fun n hn => ?_⟩
+        have : n ∉ snippetNames k := fun h => snippet_not_host k n h hn
+        simp [this, w3 n hn]
+      · simp only [↓reduceIte]
+        exact ⟨w1, ⟨[], by rw [w2]; simp⟩, w3⟩
+
+theorem bodyState_hasCode (s : St) (k : Nat) (inv : Inv) : (bodyState s k inv).hasCode = true := by
+  unfold bodyState enter
+  simp only
+  split <;> split <;> simp [start, reset]
+
+/-- after an invocation the VM has code whose definitions were executed, unless a Run/RunCode was
+    stopped at once by its own dead context -/
+theorem invoke_hasCode (s : St) (k : Nat) (inv : Inv) (g : Good s k) :
+    (invoke s k inv).1.hasCode = (!cut s k inv || inv.kind == .call) := by
+  have hb := bodyState_hasCode s k inv
+  rw [invoke_eq s k inv g]
+  cases hc : cut s k inv with
+  | true => simp [cutState]
+  | false =>
+    simp only [Bool.false_eq_true, ↓reduceIte, Bool.not_false, Bool.true_or]
+    show (core (bodyState s k inv) (ctxOf k inv) (eff s k inv)).1.hasCode = true
+    unfold core
+    split
+    · exact hb
+    · split
+      · exact hb
+      split
+      · unfold modEnd
+        dsimp only
+        split
+        · rw [(cancel_sameCore _ _).2.2.2.2.1]; exact hb
+        · exact hb
+      · show (leaf (bodyState s k inv) (ctxOf k inv) (eff s k inv)).hasCode = _
+        unfold leaf
+        dsimp only
+        split
+        · rw [(cancel_sameCore _ _).2.2.2.2.1, (cancelAll_sameCore _ _).2.2.2.2.1]; exact hb
+        · rw [(cancelAll_sameCore _ _).2.2.2.2.1]; exact hb
+
+
+theorem preState_hasCode (s : St) (k : Nat) (inv : Inv) : (preState s k inv).hasCode = s.hasCode := by
+  unfold preState events
+  exact (cancelAll_sameCore _ _).2.2.2.2.1
+
+theorem act0_mem_defNames (lay : Lay) : GName.act 0 ∈ defNames lay := by
+  unfold defNames
+  cases lay.swap <;> simp
+
+/-- the link between the run-state and the name storage: when the VM has code (`hasCode`: a
+    `Call` needs no definitions loaded), the name under which the host fetches the function it
+    calls is bound, in the ACTIVE code, to that code's own function of that name -/
+def Linked (g : GSt) (s : St) : Prop :=
+  s.hasCode = true →
+    ∃ w, activeWrap g = some w ∧ scan w.slots (callTarget g) = .val (.fn (callTarget g) w.owner)
+
+theorem linked_fresh (acc : Nat) : Linked {} (fresh acc) := fun h => by simp [fresh] at h
+
+theorem linked_setup (g : GSt) (p : St) (lay : Lay) (s' : St) : Linked (gsetup g p lay) s' := by
+  intro _
+  refine ⟨execDefs (loadRoot .setup (codeTbl lay)) (defNames lay), rfl, ?_⟩
+  have e := scan_fresh_code .setup lay true (.act 0)
+  simp only [↓reduceIte] at e
+  show scan _ (GName.act 0) = _
+  rw [e]
+  have h1 := act0_mem_defNames lay
+  have h2 : GName.act 0 ∈ codeTbl lay := by unfold codeTbl; exact List.mem_append_right _ h1
+  simp [codeGet, h1, h2, defVal, execDefs, loadRoot, callTarget, gsetup]
+
+theorem linked_step (g : GSt) (s : St) (k : Nat) (inv : Inv) (lay : Lay)
+    (hg : Good s k) (gg : GGood g s k) (hl : Linked g s) :
+    Linked (ginvoke g s k inv lay) (invoke s k inv).1 := by
+  have hq := (prep_facts s k inv hg).1
+  intro hc
+  rw [invoke_hasCode s k inv hg] at hc
+  cases hk : inv.kind with
+  | call =>
+    rw [ginvoke_call g s k inv lay hk hq]
+    split
+    · exact linked_setup g _ lay (invoke s k inv).1 (by rw [invoke_hasCode s k inv hg]; exact hc)
+    · rename_i h
+      have : s.hasCode = true := by
+        rw [← preState_hasCode s k inv]; simpa using h
+      exact hl this
+  | runCode =>
+    have hcut : cut s k inv = false := by simpa [hk] using hc
+    have hload : loadCode (if 0 < (prep s k inv).startCount then greset g else g)
+        (.code (codeOf k inv)) lay = loadRoot (.code (codeOf k inv)) (codeTbl lay) := by
+      by_cases h0 : 0 < (prep s k inv).startCount
+      · simp [h0, greset, loadCode]
+      · have := (gg.cold (prep_cold s k inv hg h0)).1
+        simp [h0, loadCode, this]
+    rw [ginvoke_runCode g s k inv lay hk hq, hload, hcut]
+    refine ⟨execDefs (loadRoot (.code (codeOf k inv)) (codeTbl lay)) (defNames lay), rfl, ?_⟩
+    have e := scan_fresh_code (.code (codeOf k inv)) lay true (.act 0)
+    simp only [↓reduceIte] at e
+    show scan _ (GName.act 0) = _
+    rw [e]
+    have h1 := act0_mem_defNames lay
+    have h2 : GName.act 0 ∈ codeTbl lay := by unfold codeTbl; exact List.mem_append_right _ h1
+    simp [codeGet, h1, h2, defVal, execDefs, loadRoot, callTarget]
+  | run =>
+    have hcut : cut s k inv = false := by simpa [hk] using hc
+    obtain ⟨w1, w2, w3, w4⟩ := runWrap_facts g s k gg
+    rw [ginvoke_run g s k inv lay hk hq, hcut]
+    refine ⟨execDefs (runWrap g k) (snippetNames k), rfl, ?_⟩
+    show scan _ (GName.act (k + 1)) = _
+    have hs : GName.act (k + 1) ∈ snippetNames k := by simp [snippetNames]
+    have hin : GName.act (k + 1) ∈ names (runWrap g k).slots := by rw [w2]; simp [hs]
+    simp [execDefs, scan_defs, hs, hin, defVal, w1, callTarget]
+
 end Risor.C07
